@@ -668,7 +668,7 @@ static void DecodeAdrMem(tStrComp const* pArg) {
         case 1:
             if (DispAcc <= 0xff) {
                 DispSize = eSymbolSize8Bit;
-            } else if (DispAcc < 0xffff) {
+            } else if (DispAcc <= 0xffff) {
                 DispSize = eSymbolSize16Bit;
             } else {
                 DispSize = eSymbolSize24Bit;
